@@ -125,7 +125,7 @@ func ruleRenderReturnsFlush(w *World, r *Report) {
 				}
 			}
 		}
-		r.Expect("returns of "+key, nret, 2)
+		r.Expect("returns of "+key, nret, 1)
 		// the BufWriter is the caller's writer when it already is one, else bufio.NewWriter(w)
 		ok := false
 		for _, b := range fn.Blocks {
@@ -287,7 +287,7 @@ func ruleWalkErrors(w *World, r *Report) {
 			}
 		}
 	}
-	r.Expect("error returns in Walk and its helper", n, 4)
+	r.Expect("error returns in Walk and its helper", n, 2)
 }
 
 func walkErrSource(ev ssa.Value, walker *ssa.Parameter, helpers map[*ssa.Function]bool, blk *ssa.BasicBlock, seen map[ssa.Value]bool) (bool, string) {
@@ -375,7 +375,7 @@ func ruleRenderFuncsNilError(w *World, r *Report) {
 			r.OK(key+": error result", w.FnPos(fn), "nil on every return")
 		}
 	}
-	r.Expect("registered render functions", n, 30)
+	r.Expect("registered render functions", n, 16)
 }
 
 // writerFunctions: module functions that take a util.BufWriter.
@@ -428,7 +428,7 @@ func ruleSingleChannel(w *World, r *Report) {
 			}
 		}
 	}
-	r.Expect("sink instructions", nS, 150)
+	r.Expect("sink instructions", nS, 99)
 	r.OK("all sinks write to the handed-down BufWriter", "", fmt.Sprintf("%d sink instructions in %d functions", nS, len(fns)))
 }
 
@@ -470,7 +470,7 @@ func ruleNoWriteResultUse(w *World, r *Report) {
 			}
 		}
 	}
-	r.Expect("write results examined", n, 150)
+	r.Expect("write results examined", n, 99)
 	if used == 0 {
 		r.OK("all write results discarded", "", fmt.Sprintf("%d sink calls, none of their results is used", n))
 	}
